@@ -1,12 +1,17 @@
-(* Correspondence harness for C38: one case = a schedule of broadcasts / writer iterations /
-   position checks / close run on the real channelMedium (real publicationQueue, real
-   waitSendPub / broadcast / CheckPosition code) with a recording node. *)
+(* Correspondence harness for C38.  Two kinds of cases:
+   - CMed: a schedule of broadcasts / writer iterations / position checks / close run on the
+     real channelMedium alone (real publicationQueue, real waitSendPub / broadcast /
+     CheckPosition code) with a recording node;
+   - CE2E: the end-to-end path broker -> Node.HandlePublication -> real channel medium ->
+     hub -> real Client: a schedule of C01's driver (Harness/C01.v, same case shape and model
+     tie) run with a channel medium configured for the channel, including the medium's
+     insufficient-state marker produced by a real Node.checkPosition. *)
 From Coq Require Import List NArith Bool.
-From Cfg Require Export Lib.Run Model.Medium.
+From Cfg Require Export Lib.Run Harness.C10 Model.Medium.
 Import ListNotations.
 Open Scope N_scope.
 
-Record case := mkCase {
+Record mcase := mkMCase {
   k_queue : bool; k_max : N; k_delay : bool; k_now0 : N;
   k_sched : list mlabel;
   o_out : list qitem;                (* calls to handlePublication (marker = MaxUint64 offset) *)
@@ -14,6 +19,13 @@ Record case := mkCase {
   o_left : N;                        (* publicationQueue.Len() at the end *)
   o_closed : bool
 }.
+
+Inductive case :=
+  | CMed (k : mcase)
+  | CE2E (k : Harness.C01.case)
+         (last : option frame).      (* the last publication handed to the node after the
+                                        subscribe finished (driver phase >= 6), if the script has
+                                        no batching and it was not filtered *)
 
 Fixpoint list_eqb {A} (eqb : A -> A -> bool) (a b : list A) : bool :=
   match a, b with
@@ -27,7 +39,7 @@ Definition ob_eqb (a b : option bool) : bool :=
 Definition inputs (ls : list mlabel) : list qitem :=
   flat_map (fun l => match l with MBroadcast o sz _ => [QPub o sz] | _ => [] end) ls.
 
-Definition corr (k : case) : bool :=
+Definition mcorr (k : mcase) : bool :=
   match mrun (mkMO (k_queue k) (k_max k) (k_delay k)) (minit (k_now0 k)) (k_sched k) with
   | Some (s, rs) =>
       list_eqb qitem_eqb (mout s) (o_out k) && list_eqb ob_eqb rs (o_res k) &&
@@ -44,10 +56,33 @@ Definition pubs_only (l : list qitem) : list qitem :=
 Definition detected (rs : list (option bool)) : nat :=
   length (filter (fun r => match r with Some false => true | _ => false end) rs).
 
-Definition oracle (k : case) : bool :=
+Definition moracle (k : mcase) : bool :=
   subseq (pubs_only (o_out k)) (inputs (k_sched k)) qitem_eqb &&
   (if k_queue k then true else list_eqb qitem_eqb (pubs_only (o_out k)) (inputs (k_sched k))) &&
   (if o_closed k || negb (o_left k =? 0) then Nat.leb (count_insuff (o_out k)) (detected (o_res k))
    else Nat.eqb (count_insuff (o_out k)) (detected (o_res k))).
+
+(* end to end: the subscriber behind a medium gets what C10 and C01 promise a subscriber --
+   pushes bracketed by the subscription's start and end and in broker order (anything that is not
+   one of the broker's messages, e.g. the medium's marker pushed as a publication, breaks the
+   order clause), a positioned stream without silent gaps that stops at its end -- and the medium
+   does not swallow the last publication: it is delivered unless the subscription was ended *)
+Definition last_live_ok (last : option frame) (l : list frame) : bool :=
+  match last with
+  | None => true
+  | Some f => existsb is_end l || existsb (push_eqb f) l
+  end.
+
+Definition corr (c : case) : bool :=
+  match c with
+  | CMed k => mcorr k
+  | CE2E k _ => Harness.C01.corr k
+  end.
+
+Definition oracle (c : case) : bool :=
+  match c with
+  | CMed k => moracle k
+  | CE2E k last => Harness.C10.oracle k && Harness.C01.oracle k && last_live_ok last (Harness.C01.o_log k)
+  end.
 
 Definition run (cs : list case) := failing corr oracle cs.
